@@ -465,3 +465,32 @@ def _(_val: Cell, *, query_context: Obj['rbql_engine.RBQLContext']) -> Cell:
     ensures(implies(old(query_context.aggregation_stage) >= 2, result == 1 and query_context.aggregation_stage == old(query_context.aggregation_stage)
                     and contents(query_context.functional_aggregators) == old(contents(query_context.functional_aggregators))), 'pass_through_from_stage_two')
     modifies(field(query_context, 'aggregation_stage'), contents(query_context.functional_aggregators))
+
+
+# ---------------------------------------------------------------- ARRAY_AGG (without a post-processing function)
+classdef('rbql_engine.ArrayAggAggregator', bases=['rbql_engine.Aggregator'], fields=dict(stats=DDict[Key, List[Cell]], post_proc=Opt[Opaque]))
+
+
+@pred
+def arrayagg_inv(self):
+    # the stored list of a key is the group's history, in order; lists of different keys are different objects
+    return (forall(Key, lambda k: implies(has_key(self.stats, k), contents(self.stats[k]) == self.hist[k] and allocated(self.stats[k]) and not is_offered(self.stats[k])), trigger=[self.stats[k]])
+            and forall(Key, lambda k: implies(not has_key(self.stats, k), len(self.hist[k]) == 0))
+            and forall(Key, Key, lambda k1, k2: implies(has_key(self.stats, k1) and has_key(self.stats, k2) and k1 != k2, not same(self.stats[k1], self.stats[k2]))))
+
+
+@contract('rbql_engine.ArrayAggAggregator.increment', name='C03.arrayagg.increment', props=['C03'], store_policy='none')
+def _(self: Obj['rbql_engine.ArrayAggAggregator'], key: Key, val: Cell):
+    requires(arrayagg_inv(self), 'inv')
+    requires(not is_list_cell(val), 'flat_value')
+    ghost_update(self.hist, map_set(old(self.hist), key, old(self.hist)[key] + [val]))
+    ensures(arrayagg_inv(self), 'values_of_the_group_in_order')
+    modifies(field(self, 'hist'), self.stats, anylist())
+
+
+@contract('rbql_engine.ArrayAggAggregator.get_final', name='C03.arrayagg.final', props=['C03'], store_policy='none')
+def _(self: Obj['rbql_engine.ArrayAggAggregator'], key: Key) -> List[Cell]:
+    options(prune=True)      # the post-processing call is unreachable when post_proc is None
+    requires(arrayagg_inv(self) and is_none(self.post_proc) and len(self.hist[key]) >= 1, 'inv_no_post_processing')
+    ensures(contents(result) == self.hist[key], 'the_values_of_the_group_in_input_order')
+    modifies(self.stats)
